@@ -87,6 +87,8 @@ def models(wd, tier, seed):
 
 FAM = dict(driver="once", specdirs=["once", "lib"], monitor="OncePTrace", property_of=PROPERTY_OF, models=models,
            n_random={"quick": 3000, "thorough": 200000},
+           # M2: free-running parallel first calls of a memoized function (4 Ps)
+           modes={"quick": [("burst", "burst", 2000, 4)], "thorough": [("burst", "burst", 100000, 4)]},
            x_specs=["once/Once.tla", "once/Memo.tla"], p_monitor="once/OnceP.tla",
            advisory=lambda wd, binp, seed, tier: x_conformance(wd, binp, seed, SCEN["quick"] if tier == "quick" else SCEN["thorough"],
                                                                nsched=60 if tier == "quick" else 4000, nrand=40 if tier == "quick" else 2000),
